@@ -1,28 +1,175 @@
+// Harness for C12 (ACME requests are authenticated, replay-protected and confined to their account).
+//
+// Drives the real router (acme/api.Route on chi) in-process, with the real linker, an embedded
+// authority and the real nosql store on bbolt (package acmeenv), and writes per case
+//
+//	<model input line>\t<implementation output>[\t<expected>]
+//
+// Stages (flag -stage):
+//
+//	matrix  every POST route x requesting account (3 accounts on 2 provisioners, + deactivated,
+//	        + unknown key) x owner of the addressed resource x provisioner in the URL, with a
+//	        well-formed JWS; exhaustive, then random payload variants          (driver drv_c12)
+//	shapes  JWS shape generator around a valid request: serialisation, 0/1/2 signatures,
+//	        unprotected headers, none/HS/RS/PS/ES/EdDSA, RSA 1024/2048, altered or detached payload,
+//	        truncated ES signatures, wrong/missing url, reused/foreign/empty nonces, jwk/kid
+//	        combinations, kid of another provisioner                            (driver drv_c12)
+//	routes  chi.Walk over the real router; every route is probed for each middleware and the
+//	        result compared with the route table the Lean theorems are about      (driver drv_c12)
+//	nonce   k goroutines released by a barrier send well-formed requests carrying ONE nonce;
+//	        oracle: at most one is accepted                                       (no driver)
+//	d15     GetChallenge with the authorization id of another account in the URL  (no driver)
 package main
 
 import (
+	"context"
+	"encoding/hex"
 	"encoding/json"
+	"flag"
 	"fmt"
+	"os"
+	"strings"
 
 	env "verif/harness/cmd/c12/acmeenv"
+	c "verif/harness/common"
 )
 
+var provs = []env.ProvSpec{{Name: "p0", ID: "id-p0"}, {Name: "p1", ID: "id-p1"}}
+
+type JwsSpec struct {
+	Ser      string // flat | general | compact
+	KeyMode  string // kid | jwk | both | neither
+	SignWith string // req | other | cert
+	JwkOf    string // req | cert | rsa1024 | fresh | invalid
+	JwkAlg   string // "alg" member put inside the embedded jwk
+	Alg      string // protected alg ("" = natural algorithm of the signing key)
+	SignAlg  string // algorithm used to compute the signature ("" = Alg; "-" = empty signature)
+	Kid      string // loc | otherprov | garbage | ownerloc | noprefix
+	Nonce    string // fresh | reused | foreign | empty | absent | otherprov
+	URL      string // same | other | absent | nonstring
+	Unprot   string // "" | kid | alg | nonce | extra | jwk
+	NSigs    int
+	Detached bool
+	Alter    bool
+	BadSig   bool
+	Trunc    int
+	CT       string // "" = application/jose+json
+	Raw      string // if set, the request body verbatim
+}
+
+type Case struct {
+	Route   string // newAccount account keyChange newOrder order orders finalize authz challenge cert revoke
+	Prov    int    // provisioner in the URL: 0 | 1 | 2 (unknown name)
+	Req     int    // requester: 0..2 world accounts | 3 fresh deactivated | 4 unknown key | 5 fresh valid account
+	Own     int    // owner of the addressed resource: 0..2 | 3 non-existent id
+	AzOwn   int    // challenge route only: owner of the authorization id in the URL (-1 = Own)
+	Which   string // valid | pending
+	Payload string // valid | empty | emptyjson | garbage | deactivate | onlyexisting
+	J       JwsSpec
+}
+
+func defaultJ() JwsSpec {
+	return JwsSpec{Ser: "flat", KeyMode: "kid", SignWith: "req", JwkOf: "req", Kid: "loc", Nonce: "fresh", URL: "same", NSigs: 1}
+}
+
 func main() {
-	e, err := env.New([]env.ProvSpec{{Name: "p0"}, {Name: "p1"}}, nil)
+	n := flag.Int("n", 1000, "number of generated cases")
+	out := flag.String("out", "", "output file")
+	replay := flag.String("replay", "", "file of lines carrying case=x… to re-run")
+	stage := flag.String("stage", "matrix", "matrix | shapes | routes | nonce | d15")
+	flag.Parse()
+	o, err := c.NewOut(*out)
 	if err != nil {
-		panic(err)
+		fmt.Fprintln(os.Stderr, err)
+		os.Exit(2)
 	}
-	defer e.Close()
-	k := env.NewKey("es256", 0)
-	n := e.Nonce("p0")
-	fmt.Println("nonce", n, e.NonceLive(n))
-	path := env.Path("p0", "new-account")
-	s := &env.Shape{Ser: "flat", Protected: map[string]any{"alg": "ES256", "nonce": n, "url": env.URL(path), "jwk": env.JWKMap(k.JWK())},
-		Payload: []byte(`{"termsOfServiceAgreed":true}`), NSigs: 1, SignKey: k}
-	body, _ := s.Build()
-	rec := e.Do("POST", path, body)
-	fmt.Println(rec.Code, rec.Header().Get("Location"), rec.Body.String())
-	fmt.Println("nonce live after", e.NonceLive(n))
-	var m map[string]any
-	json.Unmarshal(rec.Body.Bytes(), &m)
+	defer o.Close()
+	w, err := newWorld()
+	if err != nil {
+		fmt.Fprintln(os.Stderr, "environment:", err)
+		os.Exit(2)
+	}
+	defer w.e.Close()
+	emit := func(k *Case) {
+		var line, impl string
+		func() {
+			defer func() {
+				if r := recover(); r != nil {
+					js, _ := json.Marshal(k)
+					line, impl = "req crashed case=x"+hex.EncodeToString(js), "crash"
+				}
+			}()
+			line, impl = w.run(k)
+		}()
+		if line != "" {
+			o.Case(line, impl)
+		}
+	}
+	if *replay != "" {
+		data, err := os.ReadFile(*replay)
+		if err != nil {
+			fmt.Fprintln(os.Stderr, err)
+			os.Exit(2)
+		}
+		for _, l := range strings.Split(string(data), "\n") {
+			i := strings.Index(l, "case=x")
+			if i < 0 {
+				continue
+			}
+			h := l[i+6:]
+			if j := strings.IndexAny(h, " \t"); j >= 0 {
+				h = h[:j]
+			}
+			js, err := hex.DecodeString(h)
+			if err != nil {
+				continue
+			}
+			if strings.HasPrefix(l, "nonce ") {
+				var k NonceCase
+				if json.Unmarshal(js, &k) == nil {
+					w.nonceCase(o, &k)
+				}
+				continue
+			}
+			if strings.HasPrefix(l, "d15 ") {
+				w.d15(o)
+				continue
+			}
+			if strings.HasPrefix(l, "route ") {
+				w.routes(o)
+				continue
+			}
+			var k Case
+			if json.Unmarshal(js, &k) == nil {
+				emit(&k)
+			}
+		}
+		return
+	}
+	r := c.NewRng(c.Seed())
+	switch *stage {
+	case "matrix":
+		for _, k := range matrixCases() {
+			emit(k)
+		}
+		for i := 0; i < *n; i++ {
+			emit(genMatrix(r.Fork()))
+		}
+	case "shapes":
+		for _, k := range shapeCorners() {
+			emit(k)
+		}
+		for i := 0; i < *n; i++ {
+			emit(genShape(r.Fork()))
+		}
+	case "routes":
+		w.routes(o)
+	case "nonce":
+		for i := 0; i < *n; i++ {
+			w.nonceCase(o, genNonce(r.Fork()))
+		}
+	case "d15":
+		w.d15(o)
+	}
+	_ = context.Background
 }
